@@ -16,12 +16,13 @@ LEVEL = 'exploration'
 # the evidence; DESIGN 14.6 says where each came from)
 VARIANTS = [
     "earlier compressed session on the same object (single allowed version)",
-    "earlier plain status query with handlers of its own",
+    "earlier plain status query with handlers of its own (answered, or failed with an error on record)",
     "TCP connect of the login connection refused",
     "token profile changed after construction",
     "server closes right after reply/pong; send-error fault for early closers",
     "known-but-unsupported version names",
     "wall clock stepped backwards/forwards between two readings",
+    "calling thread stalled at its n-th pre-emption point inside status()",
     "allowed versions naming one version more than once (same value, two names, name and number)"
 ]
 RUNS = {'quick': 6000, 'thorough': 250000}
@@ -50,6 +51,23 @@ def scenario_for(seed, index, tier):
         sc['wall_jumps'] = [[rng.randrange(3),
                              rng.choice([-5000000, -3600 * 10**6, -20000,
                                          5000000])]]
+    rs = make_rng('stall', ID, seed, index)
+    if sc['call'] == 'status' and not sc.get('twin') and rs.random() < 0.5:
+        # fault: the calling thread is descheduled for a while somewhere
+        # inside status() - the query may be answered meanwhile; it is still
+        # the caller's handlers that get the result
+        sc['stall'] = {'api': 'status', 'at': rs.randrange(0, 120),
+                       'us': rs.choice([30000, 200000]),
+                       'skip': 1 if (sc.get('prior') or {}).get('kind') ==
+                       'status' else 0}
+        sc['sched']['granularity'] = 'line'
+    if (sc.get('prior') or {}).get('kind') == 'status' and \
+            make_rng('prior-fails', ID, seed, index).random() < 0.4:
+        # ... and that earlier query may have FAILED (the server closed
+        # without answering: an error was reported and recorded): the call
+        # under test still runs its course, exit callback included
+        sc['prior']['fails'] = True
+        sc['server']['conns'][0] = {'status': {'mode': 'close_on_request'}}
     if isinstance(sc['allowed'], list) and rng.random() < 0.25:
         # the same version given more than once: again as it is, by another
         # of its names, or by name and by number - still the same SET of
@@ -505,7 +523,14 @@ def check(scenario, w, st, res):
         ob(3)
         n = scenario['prior']['conns']
         pr = st.get('prior') or {}
-        if scenario['prior'].get('kind') == 'status':
+        if scenario['prior'].get('kind') == 'status' and \
+                scenario['prior'].get('fails'):
+            if not st['prior_call'].ok or len(apps) < n:
+                V.append(('C09/earlier-query-failed',
+                          {'call': repr(st['prior_call'].exc)[:80]}))
+                return
+            res.probes['call-after-failed-status-query'] = 1
+        elif scenario['prior'].get('kind') == 'status':
             ob(2)
             if not st['prior_call'].ok or pr.get('errs') or \
                     len(pr.get('exits', ())) != 1 or len(apps) < n:
